@@ -95,3 +95,22 @@ REG["C14"] = {
                    "are enumerated by TLC and executed; each intermediate directory must be well-formed (independent parser), accepted by the real taste, carry the mesh/time/geometry of the source and hold bit-exactly the composed pure operations."),
     "level_note": _NOTE,
 }
+
+REG["C08"] = {
+    "technique": "TLC model checking of Plate.tla over Mesh.tla (per-level map over boxes, level-after-level broadcast into uninitialised arrays; PlateIsCover, NoUninit) + replay into the real Mandoline on 2-D plotfiles with poisoned numpy.empty and bit-exact comparison",
+    "level_text": ("Every 2-D lattice mesh within the bounds (4x2 coarse cells, <=3 levels, <=2 disjoint nested boxes per fine level, every level-0 tiling), every limit, serial and parallel are model-checked; each scenario is replayed "
+                   "with five field lists (incl. all and grid_level), both axis assignments, 3x3-cell blocks (non-square boxes), random scattered layouts and wild payloads; every pixel, the grid level and both coordinate vectors are compared."),
+    "level_note": _NOTE,
+}
+REG["C09"] = {
+    "technique": "TLC model checking of Pestle.tla over Mesh.tla (occupancy map resolution, covering masks, limit control flow; IntegralRefines, ExactlyOnce, SpecTiles) + replay into the real volume_integral (API two ways, CLI) against the sum over exactly the cells the requirement counts",
+    "level_text": ("Block-lattice meshes with 2- and 3-block boxes at every block offset (aligned and misaligned with the smallest extent), partial refinement, 1..3 levels (thorough: longer domains), every limit and volfrac flag are model-checked; "
+                   "replayed with blocking factor 2/4/8, all six axis assignments, anisotropic cells, random layouts, three fields incl. the constant-1 probe."),
+    "level_note": _NOTE,
+}
+REG["C10"] = {
+    "technique": "TLC model checking of Whip.tla over Mesh.tla and Pool.tla (imap_unordered per file with every arrival order, zero-initialised grid, level barrier; FinalIsCover, LevelsSequential) + replay through whip's main() with the pool delivering in the behaviour's order, .npy compared bit for bit",
+    "level_text": ("Every mesh within the bounds x files per level (1..3) x limit x every start/finish/arrival interleaving is explored; each behaviour is replayed with float64/float32, "
+                   "all six assignments of lattice axes to (x, y, z), a cut extruded axis and wild payloads."),
+    "level_note": _NOTE,
+}
